@@ -755,7 +755,30 @@ func (a *analysis) oracleC06() verdict {
 		for bi := range upd {
 			for _, u := range upd[bi] {
 				if u.lazy && u.inv < begin && u.ret > prevBegin {
-					exempt = true
+					// ... unless an immediate change of the same bar came after it and
+					// was over before this cycle began: that one re-sorts the bar at once
+					// (and nothing else touched a priority in between: an immediate change of
+					// another bar made while this one sits at a stale position re-sorts
+					// against a heap that is not in order, which is part of "unspecified")
+					fixed := false
+					for _, w := range upd[bi] {
+						if !w.lazy && w.inv > u.ret && w.ret < begin {
+							clean := true
+							for bj := range upd {
+								for _, x := range upd[bj] {
+									if x != u && x != w && x.ret > u.inv && x.inv < w.ret {
+										clean = false
+									}
+								}
+							}
+							if clean {
+								fixed = true
+							}
+						}
+					}
+					if !fixed {
+						exempt = true
+					}
 				}
 			}
 		}
